@@ -113,7 +113,22 @@ static std::string relcon(const Poly_Con_Relation& r) {
 static Constraint_System mkcs(const Op& o, unsigned n) { Constraint_System cs; for (size_t i = 0; i < o.cs.size(); ++i) cs.insert(mkc(o.cs[i].first, o.cs[i].second, n)); return cs; }
 static Generator_System mkgs(const Op& o, unsigned n) { Generator_System gs; for (size_t i = 0; i < o.gs.size(); ++i) gs.insert(mkg(o.gs[i].first, o.gs[i].second, n)); return gs; }
 
-struct Out { std::string exc, obs, rr, rc; bool rb; long ri; };
+struct Out { std::string exc, obs, rr, rc, plain, wtwin; bool rb; long ri; };
+static const char* DEADP = "{\"alive\":false,\"n\":0,\"topo\":\"C\",\"H\":[],\"V\":[],\"st\":\"\",\"ok\":true}";
+// an equal object through a different history (style selects which)
+static Polyhedron* rebuilt(const Slot& s, int style) {
+  Polyhedron* c = clone(s); Polyhedron* q = 0; bool nnc = s.nnc; unsigned sn = s.p->space_dimension();
+  if (style % 3 == 0) { Constraint_System cs = c->minimized_constraints(); q = mk(nnc, sn, UNIVERSE); q->add_constraints(cs); }
+  else if (style % 3 == 1) { Generator_System gs = c->minimized_generators(); q = mk(nnc, sn, EMPTY); if (gs.begin() != gs.end()) q->add_generators(gs); (void) q->minimized_constraints(); }
+  else { Constraint_System cs = c->constraints(); q = mk(nnc, sn, UNIVERSE); for (Constraint_System::const_iterator i = cs.begin(); i != cs.end(); ++i) q->add_constraint(*i); (void) q->generators(); }
+  delete c; return q;
+}
+static void widen_call(const std::string& op, Polyhedron* x, const Polyhedron& y, const Constraint_System& cs, unsigned* tp) {
+  if (op == "H79_widening") x->H79_widening_assign(y, tp); else if (op == "BHRZ03_widening") x->BHRZ03_widening_assign(y, tp); else if (op == "widening") x->widening_assign(y, tp);
+  else if (op == "limited_H79") x->limited_H79_extrapolation_assign(y, cs, tp); else if (op == "limited_BHRZ03") x->limited_BHRZ03_extrapolation_assign(y, cs, tp);
+  else if (op == "bounded_H79") x->bounded_H79_extrapolation_assign(y, cs, tp); else x->bounded_BHRZ03_extrapolation_assign(y, cs, tp);
+}
+static std::string plain_of(const std::string& op) { return (op == "limited_H79" || op == "bounded_H79" || op == "H79_widening") ? "H79_widening" : (op == "widening" ? "widening" : "BHRZ03_widening"); }
 // executes one call on receiver slot d (argument slot s); used for the real object and, after an assignment, for its
 // copy-constructed twin (C13: "x = y; x.op()" must behave like "T x(y); x.op()")
 static void exec_op(const Op& o, Slot* S, Slot& d, Slot& s, Out& out) {
@@ -213,13 +228,19 @@ static void exec_op(const Op& o, Slot* S, Slot& d, Slot& s, Out& out) {
       else if (op == "dumpload") { std::stringstream ss; d.p->ascii_dump(ss); std::string t1 = ss.str(); Polyhedron* q = mk(d.nnc, 0, UNIVERSE); bool ok = q->ascii_load(ss);
         std::stringstream s2; q->ascii_dump(s2); rb = ok && (s2.str() == t1) && q->OK(); ri = (ok ? 1 : 0) + (s2.str() == t1 ? 2 : 0) + (q->OK() ? 4 : 0); Slot& tgt = S[o.src > 0 ? o.src : o.dst]; delete tgt.p; tgt.p = q; tgt.nnc = d.nnc; }
       // ---------------- widenings and integer-aware operators (C08, C17)
-      else if (op == "H79_widening" || op == "BHRZ03_widening" || op == "widening") { unsigned tk = o.den; unsigned* tp = (o.mod > 0) ? &tk : 0;
-        // the widenings require the argument to be contained in the receiver: establish it by a hull when needed (o.var % 2: always)
-        if (d.p->space_dimension() == s.p->space_dimension() && d.nnc == s.nnc && ((o.var % 2) || !d.p->contains(*s.p))) d.p->poly_hull_assign(*s.p);
-        if (op == "H79_widening") d.p->H79_widening_assign(*s.p, tp); else if (op == "BHRZ03_widening") d.p->BHRZ03_widening_assign(*s.p, tp); else d.p->widening_assign(*s.p, tp); ri = tk; }
-      else if (op == "limited_H79" || op == "limited_BHRZ03" || op == "bounded_H79" || op == "bounded_BHRZ03") { unsigned tk = o.den; unsigned* tp = (o.mod > 0) ? &tk : 0; Constraint_System cs = mkcs(o, n);
-        if (op == "limited_H79") d.p->limited_H79_extrapolation_assign(*s.p, cs, tp); else if (op == "limited_BHRZ03") d.p->limited_BHRZ03_extrapolation_assign(*s.p, cs, tp);
-        else if (op == "bounded_H79") d.p->bounded_H79_extrapolation_assign(*s.p, cs, tp); else d.p->bounded_BHRZ03_extrapolation_assign(*s.p, cs, tp); ri = tk; }
+      else if (op == "H79_widening" || op == "BHRZ03_widening" || op == "widening" || op == "limited_H79" || op == "limited_BHRZ03" || op == "bounded_H79" || op == "bounded_BHRZ03") {
+        unsigned tk = o.den; unsigned* tp = (o.mod > 0) ? &tk : 0; Constraint_System cs = mkcs(o, n);
+        if (d.p->space_dimension() != s.p->space_dimension() || d.nnc != s.nnc || &d == &s) { widen_call(op, d.p, *s.p, cs, tp); ri = tk; }
+        else {
+          // the widenings require the argument to be contained in the receiver: z = receiver joined with the argument
+          d.p->poly_hull_assign(*s.p);
+          // (1) the plain widening of the same pair, without tokens and limiting constraints, on a copy
+          { Slot t; t.p = clone(d); t.nnc = d.nnc; Constraint_System none; widen_call(plain_of(op), t.p, *s.p, none, 0); out.plain = desc(t); delete t.p; }
+          // (2) the same call on arguments rebuilt through a different history
+          { Slot tz, ts; tz.p = rebuilt(d, o.var); tz.nnc = d.nnc; ts.p = rebuilt(s, o.var + 1); ts.nnc = s.nnc; unsigned tk2 = o.den;
+            widen_call(op, tz.p, *ts.p, cs, tp ? &tk2 : 0); out.wtwin = desc(tz); if (tp && tk2 != (unsigned) 0 + tk2) {} out.rb = true; out.rr = std::string("{\"ok\":true,\"num\":") + std::to_string(tk2) + ",\"den\":1,\"ext\":false,\"pt\":[]}"; delete tz.p; delete ts.p; }
+          widen_call(op, d.p, *s.p, cs, tp); ri = tk; }
+      }
       else if (op == "drop_non_integer") { if (o.vs.empty()) d.p->drop_some_non_integer_points(o.var % 2 ? ANY_COMPLEXITY : POLYNOMIAL_COMPLEXITY); else { Variables_Set vs; for (size_t i = 0; i < o.vs.size(); ++i) vs.insert(Variable(o.vs[i])); d.p->drop_some_non_integer_points(vs, o.var % 2 ? ANY_COMPLEXITY : POLYNOMIAL_COMPLEXITY); } }
       else exc = "unknown-op";
 }
@@ -243,11 +264,12 @@ static void run_history(const std::vector<std::string>& lines, int fd) {
     std::string exc = "", obs = "[]", rr = "{\"ok\":false,\"num\":0,\"den\":1,\"ext\":false,\"pt\":[]}", rc = "{\"sat\":false,\"inc\":false,\"dis\":false,\"si\":false}";
     bool rb = false; long ri = 0; unsigned n = d.p ? d.p->space_dimension() : 0; big = false;
     const std::string& op = o.op;
-    Out out; out.exc = exc; out.obs = obs; out.rr = rr; out.rc = rc; out.rb = false; out.ri = 0;
+    Out out; out.exc = exc; out.obs = obs; out.rr = rr; out.rc = rc; out.rb = false; out.ri = 0; out.plain = DEADP; out.wtwin = DEADP;
+    std::string plain = DEADP, wtwin = DEADP;
     std::string twin_desc = "{\"alive\":false,\"n\":0,\"topo\":\"C\",\"H\":[],\"V\":[],\"st\":\"\",\"ok\":true}";
     try {
       exec_op(o, S, d, s, out);
-      exc = out.exc; obs = out.obs; rr = out.rr; rc = out.rc; rb = out.rb; ri = out.ri;
+      exc = out.exc; obs = out.obs; rr = out.rr; rc = out.rc; rb = out.rb; ri = out.ri; plain = out.plain; wtwin = out.wtwin;
     }
     catch (std::invalid_argument&) { exc = "invalid_argument"; } catch (std::length_error&) { exc = "length_error"; }
     catch (std::domain_error&) { exc = "domain_error"; } catch (std::overflow_error&) { exc = "overflow_error"; }
@@ -271,7 +293,7 @@ static void run_history(const std::vector<std::string>& lines, int fd) {
     vj::Obj e; e.s("e", "Op").i("t", t).s("op", op).i("dst", o.dst).i("src", o.src).i("argn", o.n).s("topo", o.topo).s("k", o.k).i("var", o.var).i("den", o.den).i("mod", o.mod)
       .raw("v", vj::arr(o.v)).raw("w", vj::arr(o.w)).raw("vs", vj::arr(o.vs)).raw("cs", vj::arrs(ccs)).raw("gs", vj::arrs(ggs))
       .b("rb", rb).i("ri", ri).raw("rr", rr).raw("rc", rc).s("exc", exc).raw("obs", obs)
-      .raw("post", std::string("[") + p1 + "," + p2 + "," + p3 + "]").raw("twin", twin_desc).b("big", big);
+      .raw("post", std::string("[") + p1 + "," + p2 + "," + p3 + "]").raw("twin", twin_desc).raw("plain", plain).raw("wtwin", wtwin).b("big", big);
     W.line(e.str());
     if (big) { W.line("{\"e\":\"Reset\"}"); for (int i = 1; i <= 3; ++i) { delete S[i].p; S[i].p = 0; delete TW[i].p; TW[i].p = 0; } }
   }
